@@ -126,6 +126,24 @@ pub fn check_relabel(old: &[u8], new: &[u8]) -> Result<(bool, u64, u64), String>
         relabel!("x -> zero-padded String", |&x: &u8| format!("{:05}", x));
         relabel!("x -> (x, 'k') tuple", |&x: &u8| (x, 'k'));
         relabel!("x -> -100 + x (i8 range)", |&x: &u8| -100i16 + x as i16);
+        // old and new relabelled into DIFFERENT element types (new: PartialEq<old>) whose Hash
+        // impls feed different bytes for equal items
+        {
+            use crate::instr::{Hi, Lo};
+            let o: Vec<Lo> = old.iter().map(|&x| Lo(x as u32 + 7)).collect();
+            let nn: Vec<Hi> = new.iter().map(|&x| Hi(x as u64 + 7)).collect();
+            let got = subject(|| similar::capture_diff(alg, &o[..], 0..o.len(), &nn[..], 0..nn.len()))
+                .map_err(|p| format!("heterogeneous element types: panic: {}", p))?;
+            n += 1;
+            if got != base {
+                return Err(format!(
+                    "{}: relabelling old into Lo(u32) and new into Hi(u64) (equal items, different hashes across the sides) changes the ops from {:?} to {:?}",
+                    alg_name(alg),
+                    base,
+                    got
+                ));
+            }
+        }
     }
     Ok((old != new && !old.is_empty() && !new.is_empty(), n, fp.0))
 }
@@ -301,7 +319,7 @@ fn source_scan() -> Vec<String> {
 pub fn run(cfg: &RunCfg) -> CheckReport {
     let mut rep = CheckReport::new(
         "exploration",
-        "part 'seeds': every pair of the listed scopes x S hasher seeds (seam H3: Patience ops, the > 100-token text-diff path, IdentifyDistinct ids) x EVERY permutation of the uniqueness map's iteration order when <= 6 items are unique (rotations x reversal above); non-trivial: >= 2 unique items. part 'relabel': every pair x 3 algorithms x 7 order-preserving injective relabellings into other types/values/hashes. part 'history': every ordered pair of inputs (A,B) from a small scope x 3x3 algorithms: B after A on one thread vs B alone, plus repeated call. part 'str-bytes': every text pair of the C04 'valid' space, lines/words/chars x 3 algorithms, str ops vs [u8] ops. Supplementary (free-running, not exhaustive, labelled): 16 OS threads with real random hasher seeds against the armed reference. Cases distinct by construction within a part.",
+        "part 'seeds': every pair of the listed scopes x S hasher seeds (seam H3: Patience ops, the > 100-token text-diff path, IdentifyDistinct ids) x EVERY permutation of the uniqueness map's iteration order when <= 6 items are unique (rotations x reversal above); non-trivial: >= 2 unique items. part 'relabel': every pair x 3 algorithms x 7 order-preserving injective relabellings into other types/values/hashes plus one relabelling of old and new into two different element types (new: PartialEq<old>) that hash equal items differently. part 'history': every ordered pair of inputs (A,B) from a small scope x 3x3 algorithms: B after A on one thread vs B alone, plus repeated call. part 'str-bytes': every text pair of the C04 'valid' space, lines/words/chars x 3 algorithms, str ops vs [u8] ops. Supplementary (free-running, not exhaustive, labelled): 16 OS threads with real random hasher seeds against the armed reference. Cases distinct by construction within a part.",
     );
     rep.assume("no shared mutable state / synchronisation in the crate (source scan reported under 'shared_state_scan'; a non-empty scan is a WARNING, not a verdict): thread interleavings cannot influence a result, so 'schedules' reduces to (hasher seed, iteration order, call history)");
     rep.assume("H3 seams cover every HashMap built on the diff path (unique(), IdentifyDistinct)");
@@ -357,7 +375,7 @@ pub fn run(cfg: &RunCfg) -> CheckReport {
             !acc.stop()
         });
     });
-    rep.part("relabel", json!({"scopes": rspace.describe(), "relabellings": 7}), ex);
+    rep.part("relabel", json!({"scopes": rspace.describe(), "relabellings": "7 same-type maps + 1 heterogeneous pair of element types (old Lo(u32), new Hi(u64))"}), ex);
     if rep.has_violation() {
         return rep;
     }
